@@ -194,6 +194,26 @@ async fn one_case(seed: u64, case: u64, max_ops: usize, report: &Report) {
         let kind: OpKind = *rng.pick_weighted(&weights);
         recs.push(h.step(kind).await);
         let rec = recs.last().unwrap();
+        if let crate::hist::Extra::LegacyTombstones { loc } = &rec.extra {
+            // Judge from the manifest only (shallow observation: no data file is opened, nothing is
+            // scanned) and end the case: scanning such a table in-process can abort the whole check.
+            let head = h.lin[loc].head.clone();
+            let (view, _) = crate::walker::observe(&head, &h.env.raw(), false).await;
+            let hit = view.frags.iter().any(|f| f.files.iter().any(|df| df.legacy && df.fields.iter().any(|i| *i < 0)));
+            report.count("legacy_tables_with_tombstoned_field_ids_not_scanned", 1);
+            if hit {
+                report.violation(
+                    "scan-fails-legacy-data-file-with-tombstoned-field-id",
+                    &format!("{}:v{}: legacy data file carries a tombstoned (-2) field id after partial-schema merge_insert (judged from the manifest; the version is deliberately not scanned in-process: the legacy reader derives its field-id offset from that id and decodes garbage, up to aborting the process on a huge allocation)", loc.label(), head.manifest().version),
+                    json!({"seed": seed, "case": case, "config": h.cfg.describe(), "structural_evidence_only": true,
+                           "fragments": view.frags.iter().map(|f| f.files.iter().map(|d| format!("{}:{:?}", d.path, d.fields)).collect::<Vec<_>>()).collect::<Vec<_>>(),
+                           "ops": h.ops_json(48)}),
+                );
+            }
+            h.count_ops(report);
+            report.case(None);
+            return;
+        }
         for (loc, v) in rec.new_versions.clone() {
             let Some(lin) = h.lin.get(&loc) else { continue };
             let ds = if lin.latest() == v {
